@@ -454,7 +454,7 @@ func init() { register(ruleUnwrapThread) }
 // Exists answer false where Query returns items.
 var ruleScratchStatus = &Rule{
 	Name: "R-SCRATCHSTATUS", NeedSSA: true,
-	Doc: "in every status function of the executor, the status returned never flows (through merges) from the status of an evaluation call whose list argument is a list of the function's own making rather than the function's collector, except on a branch where that status is known to be `failed`: the outcome of a side evaluation is not the outcome of the step",
+	Doc: "in every status function of the executor the status returned never flows (through merges) from the status of an evaluation call whose list argument is a list of the function's own making rather than the function's collector, nor from the status result of a helper that passes such a status on beside a value (`item, res, err := exec.operand(…)`), except on a branch where that status is known to be `failed`: the outcome of a side evaluation is not the outcome of the step",
 	Run: func(p *Prog) *RuleOut {
 		out := newOut("R-SCRATCHSTATUS")
 		failedK := constOf(p.A.StatusFailed)
@@ -463,90 +463,139 @@ var ruleScratchStatus = &Rule{
 			return ok && pt.Elem() == types.Type(p.A.ValueList)
 		}
 		n := 0
-		for _, fn := range p.execFuncs() {
-			if p.pairKind(fn.Signature) != "status" {
-				continue
-			}
-			coll := p.collectorParam(fn)
-			// side evaluations: status calls with a list argument that is not the collector
-			side := map[ssa.Value]*ssa.Call{}
-			for _, c := range p.allCalls(fn) {
-				if p.pairKind(calleeSig(c)) != "status" {
+		// helpers that pass the status of a side evaluation on to their caller
+		// beside a value (`item, ok, res, err := exec.execSingleItem(…)`): result index
+		leaky := map[*ssa.Function]int{}
+		for pass := 0; pass < 3; pass++ {
+			for _, fn := range p.execFuncs() {
+				// (status, error), or a value beside such a pair: `execOperand(…) (any, resultStatus, error)`
+				sIdx := -1
+				if p.pairKind(fn.Signature) == "status" {
+					sIdx = 0
+				} else if rs := fn.Signature.Results(); rs.Len() >= 3 && lastIsError(fn.Signature) && types.Identical(rs.At(rs.Len()-2).Type(), p.A.StatusType) {
+					sIdx = rs.Len() - 2
+				}
+				if sIdx < 0 {
 					continue
 				}
-				own := false
-				for _, a := range c.Call.Args {
-					if !isList(a.Type()) || isNilConst(a) {
-						continue
-					}
-					if coll != nil && a == ssa.Value(coll) {
-						continue
-					}
-					// a phi that may be the collector (`if found == nil && strict { found = newList() }`) is the collector's business
-					if ph, ok := a.(*ssa.Phi); ok {
-						isColl, fresh := false, false
-						for _, e := range ph.Edges {
-							if coll != nil && e == ssa.Value(coll) {
-								isColl = true
-							}
-							switch e.(type) {
-							case *ssa.Call, *ssa.Alloc:
-								fresh = true
+				// helpers first (twice, for a helper behind a helper), then the
+				// status functions, which are the steps
+				if (pass < 2) != (sIdx > 0) {
+					continue
+				}
+				// a helper that hands the list it evaluated into back to its caller
+				// hands back the evaluation, status included: the caller judges it
+				handedBack := func(a ssa.Value) bool {
+					for _, r := range returnsOf(fn) {
+						for i, rv := range r.Results {
+							if i != sIdx && stripConvPlain(rv) == a {
+								return true
 							}
 						}
-						// the collector, or a list made for the occasion when there is
-						// none: in the second case the evaluation is a side evaluation
-						if isColl && !fresh {
+					}
+					return false
+				}
+				coll := p.collectorParam(fn)
+				// side evaluations: status calls with a list argument that is not the collector
+				side := map[ssa.Value]*ssa.Call{}
+				for _, c := range p.allCalls(fn) {
+					if li, isLeaky := leaky[c.Call.StaticCallee()]; isLeaky && !c.Call.IsInvoke() {
+						if sv := extractOf(c, li); sv != nil {
+							side[sv] = c
+						}
+						continue
+					}
+					if p.pairKind(calleeSig(c)) != "status" {
+						continue
+					}
+					own := false
+					for _, a := range c.Call.Args {
+						if !isList(a.Type()) || isNilConst(a) {
 							continue
 						}
+						if coll != nil && a == ssa.Value(coll) {
+							continue
+						}
+						if sIdx > 0 && handedBack(a) {
+							continue
+						}
+						// a phi that may be the collector (`if found == nil && strict { found = newList() }`) is the collector's business
+						if ph, ok := a.(*ssa.Phi); ok {
+							isColl, fresh := false, false
+							for _, e := range ph.Edges {
+								if coll != nil && e == ssa.Value(coll) {
+									isColl = true
+								}
+								switch e.(type) {
+								case *ssa.Call, *ssa.Alloc:
+									fresh = true
+								}
+							}
+							// the collector, or a list made for the occasion when there is
+							// none: in the second case the evaluation is a side evaluation
+							if isColl && !fresh {
+								continue
+							}
+						}
+						own = true
 					}
-					own = true
-				}
-				if own {
-					if sv := extractOf(c, 0); sv != nil {
-						side[sv] = c
+					if own {
+						if sv := extractOf(c, 0); sv != nil {
+							side[sv] = c
+						}
 					}
 				}
-			}
-			if len(side) == 0 {
-				continue
-			}
-			n += len(side)
-			bad := ""
-			var check func(v ssa.Value, fs []Fact, at string, seen map[ssa.Value]bool, depth int)
-			check = func(v ssa.Value, fs []Fact, at string, seen map[ssa.Value]bool, depth int) {
-				v = stripConvPlain(v)
-				if seen[v] || depth > 6 || bad != "" {
-					return
-				}
-				seen[v] = true
-				if c, ok := side[v]; ok {
-					if p.statusFact(fs, v, failedK) != 1 {
-						bad = "the return at " + at + " hands back the status of " + calleeName(&c.Call) + " (" + p.pos(c.Pos()) + "), which evaluated into a list of the function's own"
-					}
-					return
-				}
-				if ph, ok := v.(*ssa.Phi); ok {
-					for i, e := range ph.Edges {
-						pred := ph.Block().Preds[i]
-						check(e, edgeFacts(pred, succIndex(pred, ph.Block())), at, seen, depth+1)
-					}
-				}
-			}
-			for _, r := range returnsOf(fn) {
-				if len(r.Results) == 0 {
+				if len(side) == 0 {
 					continue
 				}
-				check(r.Results[0], factsAt(r.Instr.Block()), p.pos(r.Instr.Pos()), map[ssa.Value]bool{}, 0)
-			}
-			key := fnName(fn) + ": the status of a side evaluation is not returned"
-			if bad == "" {
-				out.ok(key, p.pos(fn.Pos()), fnName(fn), fmt.Sprintf("%d evaluation(s) into a list of its own; only their failure is passed on", len(side)))
-			} else {
-				out.viol(key, p.pos(fn.Pos()), fnName(fn), bad+": what that evaluation found (or did not find) becomes the answer of the step, so the existence check disagrees with the query")
+				if pass != 0 {
+					n += len(side)
+				}
+				bad := ""
+				var check func(v ssa.Value, fs []Fact, at string, seen map[ssa.Value]bool, depth int)
+				check = func(v ssa.Value, fs []Fact, at string, seen map[ssa.Value]bool, depth int) {
+					v = stripConvPlain(v)
+					if seen[v] || depth > 6 || bad != "" {
+						return
+					}
+					seen[v] = true
+					if c, ok := side[v]; ok {
+						if p.statusFact(fs, v, failedK) != 1 {
+							bad = "the return at " + at + " hands back the status of " + calleeName(&c.Call) + " (" + p.pos(c.Pos()) + "), which evaluated into a list of the function's own"
+						}
+						return
+					}
+					if ph, ok := v.(*ssa.Phi); ok {
+						for i, e := range ph.Edges {
+							pred := ph.Block().Preds[i]
+							check(e, edgeFacts(pred, succIndex(pred, ph.Block())), at, seen, depth+1)
+						}
+					}
+				}
+				for _, r := range returnsOf(fn) {
+					if len(r.Results) == 0 {
+						continue
+					}
+					check(r.Results[sIdx], factsAt(r.Instr.Block()), p.pos(r.Instr.Pos()), map[ssa.Value]bool{}, 0)
+				}
+				if sIdx > 0 {
+					// a helper is no step: where it passes such a status on, its
+					// callers are held to the rule for that result
+					if bad != "" {
+						leaky[fn] = sIdx
+					}
+					continue
+				}
+				key := fnName(fn) + ": the status of a side evaluation is not returned"
+				if bad == "" {
+					out.ok(key, p.pos(fn.Pos()), fnName(fn), fmt.Sprintf("%d evaluation(s) into a list of its own; only their failure is passed on", len(side)))
+				} else {
+					out.viol(key, p.pos(fn.Pos()), fnName(fn), bad+": what that evaluation found (or did not find) becomes the answer of the step, so the existence check disagrees with the query")
+				}
 			}
 		}
 		out.Counts["side_evaluations"] = n
+		out.Counts["helpers_passing_a_side_status_on"] = len(leaky)
 		out.Floors["side_evaluations"] = 2
 		return out
 	},
